@@ -149,6 +149,14 @@ func c06Trees(quick bool) []*treeSpec {
 	}
 	trees = append(trees, &treeSpec{Tag: "names100x3", Dirs: []string{"sub-" + strings.Repeat("d", 96)}, Files: map[string][]byte{strings.Repeat("p", 100): defaultContent("p", 3), strings.Repeat("q", 100): defaultContent("q", 4),
 		"sub-" + strings.Repeat("d", 96) + "/" + strings.Repeat("r", 64): defaultContent("r", 5)}})
+	// files with runs of zero bytes (whole blocks of them, leading, in the middle, and nothing else): the target held other
+	// bytes before, so the zeroes have to be written like any other content
+	zr := make([]byte, 2048+4096+100)
+	copy(zr, patternBytes(31, 2048))
+	copy(zr[2048+4096:], patternBytes(32, 100))
+	lz := make([]byte, 2048+700)
+	copy(lz[2048:], patternBytes(33, 700))
+	trees = append(trees, &treeSpec{Tag: "zero-runs", Dirs: []string{"a"}, Files: map[string][]byte{"zeros.bin": zr, "allzero.bin": make([]byte, 5000), "a/lead-zero.bin": lz, "plain.txt": defaultContent("pl", 9)}})
 	// many directories: the path tables (one record per directory; the Joliet ones carry the full UCS-2 names and are larger than
 	// the primary ones) span several blocks, flat and nested, with short and with 48-character names
 	manyDirs := func(tag string, n int, name func(i int) string, nestEvery int) *treeSpec {
@@ -356,7 +364,7 @@ func runISOCase(c *isoCase, t *treeSpec) (sig, msg, outcome string) {
 	if int64(ck.BlockSize) != c.Blocksize {
 		return "pvd|" + tag + "|blocksize", fmt.Sprintf("PVD logical block size %d, image built with %d", ck.BlockSize, c.Blocksize), "invalid"
 	}
-	if hi := img.Dev.NonZeroExtent(); hi-img.Start > int64(ck.VolumeSpace)*int64(ck.BlockSize) {
+	if hi := highestWrite(img.Dev); hi-img.Start > int64(ck.VolumeSpace)*int64(ck.BlockSize) {
 		return "pvd|" + tag + "|volume-space-too-small", fmt.Sprintf("data written up to image offset %d but the volume space size is %d bytes", hi-img.Start, int64(ck.VolumeSpace)*int64(ck.BlockSize)), "invalid"
 	}
 	pd, pf := map[string]bool{}, map[string][]byte{}
